@@ -57,7 +57,7 @@ type Plan struct {
 	RespEnd     string `json:"resp_end"`     // eof eofwithdata err stall
 	RespCT      string `json:"resp_ct"`      // "" (application/octet-stream, registered) | unregistered | malformed | absent: Content-Type of the response
 	Reader      string `json:"reader"`       // readall partial none sizes
-	ReadSizes   []int  `json:"read_sizes"`   // reader "sizes": buffer sizes of successive reads (0 allowed), then return
+	ReadSizes   []int  `json:"read_sizes"`   // reader: readall partial none sizes copyfail; "sizes": buffer sizes of successive reads (0 allowed), then return
 	Reuse       bool   `json:"reuse"`        // EnableConnectionReuse
 	TimeoutMs   int    `json:"timeout_ms"`   // request timeout (0: none, -1: not set by the caller, i.e. client.DefaultTimeout)
 	DefaultMs   int    `json:"default_ms"`   // value of the package variable client.DefaultTimeout during the case (0: untouched)
@@ -484,6 +484,11 @@ func Check(p Plan) *kit.Violation {
 			buf := make([]byte, 2)
 			_, _ = resp.Body().Read(buf)
 			return "partial", nil
+		case "copyfail":
+			// the way runtime.ByteStreamConsumer hands a body to an io.Writer: io.Copy, which stops early when the
+			// destination fails (a full disk, a closed pipe)
+			_, _ = io.Copy(&failingWriter{room: 2}, resp.Body())
+			return "copyfail", nil
 		case "sizes":
 			for _, n := range p.ReadSizes {
 				buf := make([]byte, n)
@@ -661,6 +666,19 @@ func Check(p Plan) *kit.Violation {
 	return nil
 }
 
+// failingWriter takes room bytes and fails from then on.
+type failingWriter struct{ room int }
+
+func (w *failingWriter) Write(p []byte) (int, error) {
+	if len(p) <= w.room {
+		w.room -= len(p)
+		return len(p), nil
+	}
+	n := w.room
+	w.room = 0
+	return n, errors.New("destination full")
+}
+
 func maxInt(a, b int) int {
 	if a > b {
 		return a
@@ -698,7 +716,7 @@ func Gen(t *rapid.T) Plan {
 	}
 	p.RespCT = rapid.SampledFrom([]string{"", "", "", "", "unregistered", "malformed", "absent"}).Draw(t, "respct")
 	p.RespEnd = rapid.SampledFrom([]string{"eof", "eof", "eofwithdata", "err", "stall"}).Draw(t, "respend")
-	p.Reader = rapid.SampledFrom([]string{"readall", "readall", "partial", "none", "sizes"}).Draw(t, "reader")
+	p.Reader = rapid.SampledFrom([]string{"readall", "readall", "partial", "none", "sizes", "copyfail"}).Draw(t, "reader")
 	if p.Reader == "sizes" {
 		n := rapid.IntRange(1, 6).Draw(t, "nreads")
 		for i := 0; i < n; i++ {
@@ -787,7 +805,7 @@ func Enumerate(yield func(Plan) bool) {
 	}
 	// response side: every ending x reader behaviour x reuse x every cancel offset
 	for _, end := range []string{"eof", "eofwithdata", "err", "stall"} {
-		for _, reader := range []string{"readall", "partial", "none", "sizes"} {
+		for _, reader := range []string{"readall", "partial", "none", "sizes", "copyfail"} {
 			for _, reuse := range []bool{false, true} {
 				for _, rl := range []int{0, 1, 4} {
 					for cancel := -1; cancel <= rl; cancel++ {
@@ -856,7 +874,8 @@ func Classify(p Plan) (bool, []string) {
 	add(p.deadlineMs() > 0 && p.CtxMs > p.deadlineMs(), "context deadline later than the request timeout")
 	add(p.MissingProd, "missing producer")
 	add(p.deadlineMs() > 0 && p.deadlineMs() < 100 && p.RespEnd == "stall", "deadline shorter than completion")
-	add(p.Reuse && (p.Reader == "partial" || p.Reader == "none" || p.Reader == "sizes"), "reuse with unread body")
+	add(p.Reuse && (p.Reader == "partial" || p.Reader == "none" || p.Reader == "sizes" || p.Reader == "copyfail"), "reuse with unread body")
+	add(p.Reader == "copyfail", "reader copies the body to a failing destination")
 	if p.Reader == "sizes" {
 		for _, n := range p.ReadSizes {
 			if n == 0 {
@@ -882,5 +901,6 @@ func Props() []kit.Runner {
 	return []kit.Runner{
 		kit.Prop[Plan]{ID: "C12", Name: "plans", Rule: rule, Quick: 2500, Thorough: 6000, Gen: Gen, Check: Check, Classify: Classify, Enumerate: Enumerate},
 		tcpProp(),
+		reuseProp(),
 	}
 }
